@@ -31,7 +31,9 @@ for k in ("lib", "bin"):
     for b in p.bodies.values():
         if b.kind == "Closure":
             continue
-        sigs["fns"].setdefault(k, {})[b.name] = {"params": [b.locals[l]["ty"] for l in range(1, b.arg_count + 1)], "ret": b.locals[0]["ty"], "kind": b.kind}
+        sigs["fns"].setdefault(k, {})[b.name] = {"params": [b.locals[l]["ty"] for l in range(1, b.arg_count + 1)], "ret": b.locals[0]["ty"], "kind": b.kind,
+                                                 # what the function calls (tie-break between same-signature candidates of a rename)
+                                                 "calls": sorted({C.callee_name(t) for bb, t in b.calls(live_only=False) if C.callee_name(t)})}
     for a in fx[k]["adts"]:
         if a["path"].startswith(fx[k]["crate"] + "::") or a["path"].startswith("txtpp::"):
             sigs["adts"].setdefault(k, {})[a["path"]] = {"kind": a["kind"], "variants": [
